@@ -3,6 +3,7 @@ import Dmn.Model.Sexp
 import Dmn.Model.DecWire
 import Dmn.Model.DecString
 import Dmn.Model.DecSpec
+import Dmn.Model.DecFeel
 
 /-! Driver handler for C02.
 
@@ -15,6 +16,9 @@ import Dmn.Model.DecSpec
 * `(c02 judge <name> A [B] R)` → `(judge S)`: the specification applied to a given result;
 * `(c02 feel <name> X [Y])` with operands that may be special → `(feel F)`: `FeelNumber`
   operators on values that may already be infinite / NaN;
+* `(c02 feelnum <name> X [Y])` → `(feelnum F)`: the operator / built-in as FEEL sees it
+  (`Model/DecFeel.lean`: the zero-divisor, sign and scale-range guards of builders.rs / core.rs
+  around the `FeelNumber` method); `F` is a result or `null`;
 * `(c02 modexact A B)` → `(modexact true|false)`: `modExact` — every intermediate step of
   `a − b·floor(a / b)` is exact (the hypothesis of `modulo_correct_partial`);
 * `(c02 cmp A B)` → `(cmp lt|eq|gt)`. -/
@@ -199,8 +203,40 @@ def feelOp (name : String) (x : D128R) (y : Option D128R) (k : Option Int) : Opt
       | none => "panic")
   | _, _, _ => none
 
+def feelNumOp (name : String) (x : D128R) (y : Option D128R) : Option String :=
+  let sh (r : Option D128R) : String := match r with
+    | some v => showR v
+    | none => "null"
+  match name, y with
+  | "add", some y => some (sh (FeelNum.add x y))
+  | "sub", some y => some (sh (FeelNum.sub x y))
+  | "mul", some y => some (sh (FeelNum.mul x y))
+  | "div", some y => some (sh (FeelNum.div x y))
+  | "modulo", some y => some (sh (FeelNum.modulo x y))
+  | "decimal", some y => some (sh (FeelNum.decimal x y))
+  | "neg", none => some (sh (FeelNum.neg x))
+  | "abs", none => some (sh (FeelNum.abs x))
+  | "floor", none => some (sh (FeelNum.floor x))
+  | "ceiling", none => some (sh (FeelNum.ceiling x))
+  | "sqrt", none => some (sh (FeelNum.sqrt x))
+  | _, _ => none
+
 def handle (args : List Sexp) : String :=
   match args with
+  | [.atom "feelnum", .atom name, x] =>
+    match decR? x with
+    | some x =>
+      match feelNumOp name x none with
+      | some s => s!"(feelnum {s})"
+      | none => "(error unknown-op)"
+    | none => "(error bad-operand)"
+  | [.atom "feelnum", .atom name, x, y] =>
+    match decR? x, decR? y with
+    | some x, some y =>
+      match feelNumOp name x (some y) with
+      | some s => s!"(feelnum {s})"
+      | none => "(error unknown-op)"
+    | _, _ => "(error bad-operand)"
   | [.atom "cmp", a, b] =>
     match dec? a, dec? b with
     | some a, some b => s!"(cmp {showOrd (D128.cmp a b)})"
